@@ -203,6 +203,7 @@ type vpWorld struct {
 	xidp    *vpIdP // extra JWT issuer (bearer only)
 	mr      *miniredis.Miniredis
 	mrShared bool
+	twin     *vpWorld // a second instance sharing store and provider (closed with this one)
 	idpShared bool
 	redis   *vpRedisHook
 	ups     map[string]*vpUpstream
@@ -538,6 +539,10 @@ func vpHeaders(hs []vpHeaderCfg) []options.Header {
 }
 
 func (w *vpWorld) close() {
+	if w.twin != nil {
+		w.twin.close()
+		w.twin = nil
+	}
 	if w.idp != nil && !w.idpShared {
 		w.idp.close()
 	}
